@@ -745,6 +745,36 @@ def extra_flat_fractional(ctx, rec):
         rec.session([({"kind": "base", "i": 0, "k": 0}, c)], dict(CONCS[rep % 2], thrfrac=fr, thrtype=("np" if rep % 3 == 0 else "py")))
 
 
+def extra_tie_locality(ctx, rec):
+    """C17 (locality): a spike whose size sits exactly ON a threshold, and single far-away elements changed by various
+    amounts (which moves every whole-series statistic: mean, median, extremes); the flags outside the changed element's
+    neighbourhood must stay -- an exact tie is where a one-ulp difference shows"""
+    g = gen_qc.Gen(ctx.seed + 163, size=ctx.pick(9, 14))
+    r = g.r
+    for rep in range(ctx.pick(120, 800)):
+        n = r.randint(7, 13)
+        x = [r.randint(-6, 6) for _ in range(n)]
+        j = r.randint(1, n - 2)
+        method = "average" if rep % 2 else "differential"
+        if method == "average":
+            d2 = abs(2 * x[j] - (x[j - 1] + x[j + 1]))          # twice the spike size
+            thr = [d2, 2]
+        else:
+            a, b = x[j] - x[j - 1], x[j + 1] - x[j]
+            thr = [min(abs(a), abs(b)), 1]
+        if thr[0] == 0:
+            continue
+        c = {"fn": "spike", "x": x, "t": [], "z": [], "lon": [], "lat": [], "hop": [],
+             "p": {"st": thr, "ft": [thr[0] + thr[1], thr[1]] if rep % 3 else [], "method": method}}
+        steps = [({"kind": "base", "i": 0, "k": 0}, c)]
+        far = [k for k in range(n) if abs(k - j) >= 3]
+        for k in r.sample(far, min(3, len(far))):
+            d = json.loads(json.dumps(c))
+            d["x"][k] = x[k] + r.choice([1, 3, -5, 7, 11])
+            steps.append(({"kind": "perturb", "i": k + 1, "k": 0}, d))
+        rec.session(steps, CONCS[rep % len(CONCS)])
+
+
 def extra_far_origins(ctx, rec):
     """C17: the same relative time axis on origins centuries apart (a shift by a constant too large for the model's
     integers, so it is expressed through the concretisation): 1800, 1970, 2020, 2200 -- where nanosecond stamps leave
@@ -980,7 +1010,7 @@ PLAN = {
                      M("locality", NOPRESS, ["perturb"], 3, budget=120000)]),
             "random": {"fns": NOPRESS, "count": (400, 6000),
                        "kinds": ["shiftv", "negate", "shiftt", "shiftboth", "reverse", "perturb", "perturb"], "size": (8, 24)},
-            "extra": [extra_long_series, extra_subsecond_shift, extra_big_offsets, extra_far_origins]},
+            "extra": [extra_long_series, extra_subsecond_shift, extra_big_offsets, extra_far_origins, extra_tie_locality]},
 }
 
 RULES = {
